@@ -182,6 +182,42 @@ Proof. unfold wf_op. intros ->. apply orb_true_r. Qed.
 Lemma wf_op_handle s o : op_handle_of o <> None -> wf_op s o = wf_op_ord s o.
 Proof. unfold wf_op. destruct o; cbn [op_handle_of wf_below]; try congruence; intros _; apply orb_false_r. Qed.
 
+(* ---------- a name that does not pass through a regular file is not refused ---------- *)
+Lemma not_through_below_file s k : WF s -> canon k -> through_file s k = false -> below_file s k = false.
+Proof.
+  intros W Hc Ht. apply below_file_anc_dirs; [exact Hc|]. intros a r n Ha Hcase Hl Hn.
+  destruct (str_eq_dec a s_slash) as [->|Hane].
+  - destruct (g_root _ _ _ _ W) as (r0 & n0 & Hl0 & Hn0 & _ & Hd0). congruence.
+  - assert (Hkr : k <> s_slash).
+    { intros ->. rewrite par_root in Hcase. destruct Hcase as [E | [Hb | E]]; try contradiction.
+      now apply (below_not_root a s_slash Ha Hb). }
+    assert (Hb : below a k = true).
+    { apply below_step; auto. destruct Hcase as [ E | [ Hb | E ] ]; [now left | now right | contradiction]. }
+    pose proof (proj1 (through_file_false s k) Ht a Hb) as Hf. unfold is_file_at, kind_at in Hf. rewrite Hl, Hn in Hf.
+    now destruct (ndir n).
+Qed.
+
+(* ---------- Rename of a missing source (memmap.go, the branch read as
+              memfs_rename_missing_source_enotdir): nothing changes; ENOTDIR iff the directory of the
+              source is a directory and the target passes through a regular file ---------- *)
+Lemma dir_is_dir_canon s k : canon k -> dir_is_dir s k = is_dir_at s (par k).
+Proof.
+  intros Hc. unfold dir_is_dir, is_dir_at, kind_at, lockfree_open. change (path_dir k) with (par k).
+  rewrite (canon_norm _ (canon_par k Hc)). destruct (lookup s (par k)) as [d|]; [|reflexivity].
+  destruct (get_node s d) as [n|]; [now destruct (ndir n) | reflexivity].
+Qed.
+
+Lemma m_rename_missing s p q : WF s -> canon (normalize_path p) -> canon (normalize_path q) ->
+  lookup s (normalize_path p) = None ->
+  m_rename s p q = (s, RErr (EW (if is_dir_at s (par (normalize_path p)) && through_file s (normalize_path q) then KENOTDIR else KNotExist))).
+Proof.
+  intros W Ho Hn Hl. unfold m_rename. rewrite Hl, memfs_rename_missing_source_enotdir_fact, (dir_is_dir_canon s _ Ho).
+  cbn [Z.eqb Pos.eqb andb]. destruct (is_dir_at s (par (normalize_path p))); [|reflexivity]. cbn [andb].
+  destruct (through_file s (normalize_path q)) eqn:Ht.
+  - now rewrite (proj2 (through_file_refused s _ W Hn Ht)).
+  - now rewrite (not_through_below_file s _ W Hn Ht).
+Qed.
+
 (* ---------- the ordinary preconditions never name a path through a regular file ---------- *)
 Lemma WF_root_dir s : WF s -> is_dir_at s s_slash = true.
 Proof. intros W. destruct (g_root _ _ _ _ W) as (r & n & Hl & Hn & _ & Hd). unfold is_dir_at, kind_at. now rewrite Hl, Hn, Hd. Qed.
@@ -203,8 +239,7 @@ Theorem ord_not_through s o : WF s -> wf_op_ord s o = true ->
   | Rename p q =>
       let old := normalize_path p in let new := normalize_path q in
       through_file s old = false /\
-      (is_dir_at s (par old) = true -> through_file s new = false) /\
-      (lookup s old <> None -> is_dir_at s (par old) = true)
+      (lookup s old <> None -> is_dir_at s (par old) = true /\ through_file s new = false)
   | _ => True
   end.
 Proof.
@@ -231,16 +266,14 @@ Proof.
     pose proof (canon_normalize p Hnp) as Hco. pose proof (canon_normalize q Hnq) as Hcn. cbv zeta.
     destruct (kind_at s (normalize_path p)) as [isd|] eqn:Hk.
     + apply kind_at_lookup in Hk as [r Hl]. split; [now apply (WF_not_through_existing s _ r)|].
-      split; [|intros _; now apply (WF_parent_dir s _ r)]. intros _.
+      intros _. split; [now apply (WF_parent_dir s _ r)|].
       apply orb_true_iff in Ho as [E | Ho]; [apply beqb_eq in E; rewrite <- E; now apply (WF_not_through_existing s _ r)|].
       apply andb_true_iff in Ho as [_ Ho].
       destruct (kind_at s (normalize_path q)) as [d2|] eqn:Hk2.
       * apply kind_at_lookup in Hk2 as [r2 Hl2]. now apply (WF_not_through_existing s _ r2).
       * now apply WF_not_through_dir_parent.
-    + apply andb_true_iff in Ho as [Ho1 Ho2]. rewrite no_file_prefix_through in Ho1. apply negb_true_iff in Ho1.
-      split; [exact Ho1|]. split.
-      * intros Hd. rewrite Hd in Ho2. cbn [negb orb] in Ho2. rewrite no_file_prefix_through in Ho2. now apply negb_true_iff in Ho2.
-      * intros Hl. exfalso. apply Hl. now apply WF_kind_none.
+    + rewrite no_file_prefix_through in Ho. apply negb_true_iff in Ho.
+      split; [exact Ho|]. intros Hl. exfalso. apply Hl. now apply WF_kind_none.
   - (* Stat *) apply andb_true_iff in Ho as [_ Ho]. rewrite no_file_prefix_through in Ho. now apply negb_true_iff in Ho.
   - (* Chmod *) apply andb_true_iff in Ho as [_ Ho]. rewrite no_file_prefix_through in Ho. now apply negb_true_iff in Ho.
   - (* Chown *) apply andb_true_iff in Ho as [_ Ho]. rewrite no_file_prefix_through in Ho. now apply negb_true_iff in Ho.
